@@ -149,47 +149,68 @@ func (e *env) build(side string, base *session, o op) ([]byte, error) {
 	return nil, fmt.Errorf("unknown operator %q", o.Name)
 }
 
-// flipOffsets lists the byte offsets of a segment that receive bit flips.
-func flipOffsets(s seg, thorough bool) []int {
+// flipPlan lists (offset, bit mask) pairs of a segment that receive bit flips.
+//
+// quick: every bit of every byte of prefix, salt, identity header, header and
+// length chunks and of variable header / payload chunks up to 64 bytes; longer
+// variable header / payload chunks get bit 0 of every byte (up to 1024 bytes)
+// and all bits of the first 4, the middle, the last 2 body bytes and the tag.
+// thorough: every bit of every byte of segments up to 4096 bytes; longer ones
+// get all bits of the first 16, middle, last 4 body bytes and the tag, and bit
+// 0 of every 251st byte.
+func flipPlan(s seg, thorough bool) (offs []int, masks []byte) {
 	n := s.End - s.Off
-	dense := 1024
+	long := s.Kind == "varhdr" || s.Kind == "pay"
+	dense := 1 << 30
+	if long {
+		dense = 64
+	}
 	if thorough {
 		dense = 4096
 	}
-	var out []int
 	if n <= dense {
 		for i := s.Off; i < s.End; i++ {
-			out = append(out, i)
+			offs = append(offs, i)
+			masks = append(masks, 0xff)
 		}
-		return out
+		return
 	}
-	seen := map[int]bool{}
-	add := func(i int) {
-		if i >= s.Off && i < s.End && !seen[i] {
-			seen[i] = true
-			out = append(out, i)
+	m := map[int]byte{}
+	set := func(i int, mask byte) {
+		if i >= s.Off && i < s.End {
+			m[i] |= mask
 		}
 	}
-	head, tail := 4, 2
+	headN, tailN := 4, 2
 	if thorough {
-		head, tail = 16, 4
+		headN, tailN = 16, 4
 	}
-	for i := 0; i < head; i++ {
-		add(s.Off + i)
+	for i := 0; i < headN; i++ {
+		set(s.Off+i, 0xff)
 	}
-	add(s.Off + n/2)
-	for i := 0; i < tail; i++ {
-		add(s.End - 16 - 1 - i) // last body bytes
+	set(s.Off+n/2, 0xff)
+	for i := 0; i < tailN; i++ {
+		set(s.End-16-1-i, 0xff)
+	}
+	for i := 0; i < 16; i++ {
+		set(s.End-16+i, 0xff)
 	}
 	if thorough {
-		for i := 0; i < 16; i++ {
-			add(s.End - 16 + i)
+		for i := s.Off; i < s.End; i += 251 {
+			set(i, 1)
 		}
-	} else {
-		add(s.End - 16)
-		add(s.End - 1)
+	} else if n <= 1024 {
+		for i := s.Off; i < s.End; i++ {
+			set(i, 1)
+		}
 	}
-	return out
+	for i := s.Off; i < s.End; i++ {
+		if mk, ok := m[i]; ok {
+			offs = append(offs, i)
+			masks = append(masks, mk)
+		}
+	}
+	return
 }
 
 // forEachOp enumerates every tamper operator instance for one base session
@@ -221,11 +242,13 @@ func (e *env) forEachOp(side string, base *session, full, thorough bool, f func(
 			}
 		}
 		// bit flips
-		bits := []int{0, 1, 2, 3, 4, 5, 6, 7}
 		for _, s := range G.Segs {
-			for _, off := range flipOffsets(s, thorough) {
-				for _, b := range bits {
-					f(op{Name: "flip", A: off, B: b})
+			offs, masks := flipPlan(s, thorough)
+			for k, off := range offs {
+				for b := 0; b < 8; b++ {
+					if masks[k]&(1<<uint(b)) != 0 {
+						f(op{Name: "flip", A: off, B: b})
+					}
 				}
 			}
 		}
